@@ -228,7 +228,11 @@ func setDefaultNeighborConfigValuesWithViper(v *viper.Viper, n *Neighbor, g *Glo
 			// RFC 4724 4. Operation
 			// A suggested default for the Restart Time is a value less than or
 			// equal to the HOLDTIME carried in the OPEN.
-			n.GracefulRestart.Config.RestartTime = uint16(n.Timers.Config.HoldTime)
+			// ... and no more than the 12-bit field of the capability holds
+			n.GracefulRestart.Config.RestartTime = uint16(min(n.Timers.Config.HoldTime, 4095))
+		}
+		if n.GracefulRestart.Config.RestartTime > 4095 {
+			return fmt.Errorf("invalid graceful-restart restart-time %d: must be at most 4095", n.GracefulRestart.Config.RestartTime)
 		}
 		if !v.IsSet("neighbor.graceful-restart.config.deferral-time") && n.GracefulRestart.Config.DeferralTime == 0 {
 			// RFC 4724 4.1. Procedures for the Restarting Speaker
